@@ -9,6 +9,7 @@ import re
 
 from ..core import AnalysisError, norm
 from ..sim import simulate, truthy_view
+from .common import paths_of as paths_of_
 from .. import rx
 
 TRUSTED = ['CPython ast / re._parser', 'engine /verif/sa (regex->NFA, product BFS)',
@@ -110,7 +111,7 @@ def run(ctx):
     repo = ctx.repo
     ctx.decided = ['C01.1 arg-accept', 'C01.2 arg-priority', 'C01.3 dispatch-table', 'C01.4 nullable-group truthiness',
                    'C01.5 group inventory', 'C01.6 line-accept', 'C01.7 line-direction', 'C01.8 separator agreement',
-                   'C01.10 direction flag', 'C01.11 field provenance', 'C01.12 group order']
+                   'C01.10 direction flag', 'C01.11 field provenance', 'C01.12 group order', 'C01.13 every piece decoded in order']
     ctx.undecided = ['behaviour of the hand-written scanner argument_list_strs/end_of_str on every string',
                      'which substrings the line regex groups bind when a match is ambiguous (beyond C01.7)',
                      'numeric conversion of the matched text (int, float)']
@@ -573,6 +574,11 @@ def run(ctx):
                     stops_at_quote = True
     ctx.check(stops_at_quote, 'C01.8', 'end_of_str:stops-at-quote', f_eos.loc(), 'string scan stops at the closing quote')
 
+    # ---- C01.13 every piece is decoded, in order ------------------------------------------------------
+    f_al = repo.func('parse.argument_list')
+    for p in paths_of_(repo, f_al):
+        ok = p.outcome[0] == 'return' and norm(p.outcome[1]) in ('tuple((argument(p, s) for s in argument_list_strs(args_str)))', 'tuple([argument(p, s) for s in argument_list_strs(args_str)])')
+        ctx.check(ok, 'C01.13', 'argument_list:all-in-order', f_al.loc(), 'every piece of the argument text is decoded, in order, into one argument', 'argument_list returns %s' % p.outcome_text()[:120])
     return ('static obligations on the log decoder: automata inclusion/disjointness between the printer language '
             '(11 argument renderings, sent/received lines with up to %d arguments, both dialects, optional tags) and the '
             'regular expressions constant-folded from WlPatterns.__init__; dispatch table, direction flag and field '
